@@ -54,9 +54,12 @@ FAULTS = [
     "model-dict:no-tracker", "model-dict:no-time", "model-dict:no-forcing", "model-dict:no-release", "model-dict:no-output",
     # a plug-in file that an earlier run of this process loaded and that has been removed since: a missing file like any other
     "plugin:file-removed-after-an-earlier-run",
+    "release:lonlat-row-with-blank-position",
 ]
 PACKED_CONTROL = "control:packed-time-coordinate"  # the same packed files covering the window: must run
 NOLL = "release:lon-lat-only+grid-without-ll2xy"
+LLBLANK = "release:lonlat-row-with-blank-position"
+LL_CONTROL = "control:lonlat-release"  # the same geographic release file without the incomplete row: must run
 NOLL_CONTROL = "control:xy-release+grid-without-ll2xy"  # the same plug-in grid with an X/Y release file: must run
 
 
@@ -176,12 +179,18 @@ def build(base, fault, d):
         cols = ["release_time", "lon", "Z"]
     elif fault == "release:position-columns-misspelt":
         cols = ["release_time", "x", "y", "Z"]
+    elif fault in (LLBLANK, LL_CONTROL):  # positions given by longitude and latitude (the ROMS grid converts them)
+        cols = ["release_time", "lon", "lat", "Z"]
     elif fault == NOLL:  # geographic positions only, on a grid that has no geographic mapping: no position can be derived
         cols = ["release_time", "lon", "lat", "Z"]
     lines = [" ".join(cols)]
     for k, s in enumerate(rows_slots):
         vals = dict(release_time=world.iso(t(s)), X=3.3 + k, Y=3.5, Z=5.0, lon=5.03, lat=3.25, x=3.3, y=3.5)
+        if fault in (LLBLANK, LL_CONTROL):  # the generated grid has lon = 5 + 0.01 x + 0.001 y, lat = 60 + 0.005 y - 0.0005 x
+            vals.update(lon=5.0 + 0.01 * (3.3 + k) + 0.001 * 3.5, lat=60.0 + 0.005 * 3.5 - 0.0005 * (3.3 + k))
         lines.append(" ".join(str(vals[c]) for c in cols))
+    if fault == LLBLANK:  # a row with the time and one number: longitude only, no latitude
+        lines.insert(2, f"{world.iso(t(1))} 5.05")
     if fault == "release:row-with-blank-position":  # a later row that gives the time and one number only: no position (the parser fills in NaN)
         lines.insert(2, f"{world.iso(t(1))} 4.4")
     if fault == "release:empty-file":
@@ -330,7 +339,7 @@ def run_subprocess(base):
     viols, n = [], 0
     todo = ["none"]
     for f in base["faults"]:
-        todo += [NOLL_CONTROL, f] if f == NOLL else [PACKED_CONTROL, f] if f == "forcing:ends-early+packed-time-coordinate" else [f]
+        todo += [NOLL_CONTROL, f] if f == NOLL else [LL_CONTROL, f] if f == LLBLANK else [PACKED_CONTROL, f] if f == "forcing:ends-early+packed-time-coordinate" else [f]
     for fault in todo:
         if fault.startswith("model-dict:") or fault.startswith("plugin:file-removed"):
             continue  # not expressible on the command line
@@ -355,7 +364,7 @@ def run_subprocess(base):
         started = (d / "loop_started").exists()
         c = dict(b, subprocess=True, faults=[fault])
         tag = f"[python -m ladim] base={b} fault={fault}"
-        if fault in ("none", NOLL_CONTROL, PACKED_CONTROL):
+        if fault in ("none", NOLL_CONTROL, PACKED_CONTROL, LL_CONTROL):
             if r.returncode != 0 or nrec < 2 or not started:
                 viols.append(util.viol("base-scenario-broken", f"{tag}: exit status {r.returncode}, records {nrec}, loop started {started}: {r.stderr[-300:]}", c))
                 break
@@ -388,7 +397,7 @@ def run_case(base):
             continue
         if (fault.startswith("release:all-before-start") or fault == "release:all-half-a-step-before-start") and b["cont"]:
             continue  # not a fault: a continuous release keeps releasing the rows of the latest file time before start
-        ctl = NOLL_CONTROL if fault == NOLL else PACKED_CONTROL if fault == "forcing:ends-early+packed-time-coordinate" else None
+        ctl = NOLL_CONTROL if fault == NOLL else LL_CONTROL if fault == LLBLANK else PACKED_CONTROL if fault == "forcing:ends-early+packed-time-coordinate" else None
         if ctl:
             err, started, nrec = run_one(b, ctl, dshared)
             n += 1
